@@ -2,6 +2,7 @@ package main
 
 import (
 	"encoding/json"
+	"flag"
 	"fmt"
 	"net/url"
 	"os"
@@ -558,6 +559,12 @@ func c03History(ver int, text []byte, table map[string][]byte, h *c03Hist) any {
 func c03Extra(seed int64, tier string) []json_RawMessage {
 	if tier != "thorough" || os.Getenv("VERIF_C03_NOFIXTURES") != "" {
 		return nil
+	}
+	// when the cases are split over several driver processes (cases.ndjson.shard<k>) only the first one replays the fixtures
+	if f := flag.Lookup("cases"); f != nil {
+		if i := strings.LastIndex(f.Value.String(), ".shard"); i >= 0 && f.Value.String()[i:] != ".shard0" {
+			return nil
+		}
 	}
 	repo := os.Getenv("VERIF_REPO")
 	if repo == "" {
